@@ -54,7 +54,8 @@ def shard(tier, seed, shard, nshards):
                 run_one(st, s, mcommon.make_accel_case(s.clone(), rnd))
     for i in range(N[tier] // nshards):
         spec, rnd = mcommon.gen_item(ID, seed, shard, i)
-        run_one(st, spec, C.make_case(spec, rnd, lo=2, hi=5, mode="metrics"))
+        run_one(st, spec, C.make_case(spec, rnd, lo=2, hi=5, mode="metrics",
+                                      extents=getattr(spec, "_extents", None)))
     return st.result()
 
 
